@@ -16,6 +16,7 @@ From TV Require Import Num.Num Num.F32.
 From TV Require Model.TaffyEngineReal Proofs.TaffyEngineReal Model.TaffyChainReal Proofs.TaffyChainReal.
 From TV Require Model.EngineReal Proofs.EngineReal Model.BlockEngineReal Proofs.BlockEngineReal Model.BlockChainReal Proofs.BlockChainReal
   Model.Block Model.BlockAlg Model.BlockEngine Model.BlockAbs.
+From TV Require Model.BlockChainInduct Proofs.BlockChainInduct Proofs.BlockChainInductF32 Model.TaffyKey Proofs.TaffyKey.
 Import ListNotations.
 
 (* a cache hit evaluates nothing: the subtree (caches, layouts) is returned as it is *)
@@ -82,6 +83,7 @@ Module RealCache.
 Import TV.Model.EngineReal TV.Proofs.EngineReal TV.Model.BlockEngineReal TV.Proofs.BlockEngineReal TV.Model.BlockChainReal
   TV.Proofs.BlockChainReal TV.Model.Block TV.Model.BlockAlg TV.Model.BlockEngine TV.Model.BlockAbs.
 Import TV.Model.TaffyEngineReal TV.Proofs.TaffyEngineReal TV.Model.TaffyChainReal TV.Proofs.TaffyChainReal.
+Import TV.Model.BlockChainInduct.
 
 (* accounting, any algorithm, any cache behind the interface: at every node the evaluations of the node's algorithm are exactly the
    compute_cached_layout calls the cache did not answer, lossy hits are hits, and -- when ONE evaluation calls the measure function at
@@ -152,6 +154,62 @@ Theorem C16_real_chain_bound_partial :
                 @chain_queries f32 _ mix d k = Some q /\ (q <= 2 * N.of_nat d + 1)%N.
 Proof. exact chain_bound. Qed.
 
+(* ---- wave 9a: the same bound for EVERY depth, by INDUCTION over the depth (Model/BlockChainInduct.v, Proofs/BlockChainInduct.v,
+   Proofs/BlockChainInductF32.v).  For the chain families of `chain_rate` -- all defaults under all three available-space classes,
+   width:200px under all three, max-width:120px under min-content x max-content (7 of the 9 (family, space) classes of the computed
+   statement above; every k >= 2 is min-content x max-content) -- and EVERY depth d >= 1, over the bit-exact binary32 instance, the same
+   definitions `chain_leaf_meas` / `chain_queries` (one compute_layout of the real-cache engine `blr_memo` on the fresh chain):
+   the leaf is measured EXACTLY once and there are EXACTLY rate * d + 1 compute_cached_layout calls, rate <= 2 (1 where the container's width
+   is known before its child is asked: 300 x 200 / width:200px; 2 otherwise: content-width query, then the final-layout query, which hits).
+   How: everything below the root is evaluated with ONE input (`lvl_in`), a container answers it with ONE output (`o_blk`) whatever is
+   below it, and the later queries of a parent are accepted by `Cache.compat` against the child's final-layout entry (the lossy clause
+   "known dimension = cached size").  These facts about ONE level are a finite check (`family_ok_body`, evaluated by vm_compute:
+   the only binary32 facts used); `grun_replay` / `level_step` turn them into an evaluation of `blr_memo` one level up, for any child tree
+   that answers so, and `chain_level` is the induction over the depth.  The induction itself is generic in `Num` (C16_real_block_chain_step).
+   Not covered: max-width:120px under max-content / 300 x 200 (the check fails there; the computed statement above covers d <= 64);
+   flex / grid containers (the count grows: C16_real_chain_growth_refuted). *)
+Theorem C16_real_block_chain_bound_all_depths :
+  forall mix k r d, chain_rate mix k = Some r -> (1 <= d)%nat ->
+    @chain_leaf_meas f32 _ mix d k = Some 1%N /\ @chain_queries f32 _ mix d k = Some (N.of_nat r * N.of_nat d + 1)%N /\ (r <= 2)%nat.
+Proof.
+  intros mix k r d Hr Hd. destruct (BlockChainInductF32.chain_counts_all_depths mix k r d Hr Hd) as [A B].
+  split; [exact A|]. split; [exact B|]. apply (BlockChainInductF32.chain_rate_le2 mix k r Hr).
+Qed.
+
+(* ... in the form of C16_real_chain_bound_partial with the bound on the depth removed *)
+Theorem C16_real_block_chain_bound_all_depths_le :
+  forall mix k r d, chain_rate mix k = Some r -> (1 <= d)%nat ->
+    exists m q, @chain_leaf_meas f32 _ mix d k = Some m /\ (m <= 2)%N /\
+                @chain_queries f32 _ mix d k = Some q /\ (q <= 2 * N.of_nat d + 1)%N.
+Proof. exact BlockChainInductF32.chain_bound_all_depths. Qed.
+
+(* the induction, for any number structure: whenever the one-level check holds (for an exact equality `xeq` of numbers; any ghost
+   equality `teq`), one compute_layout on the fresh chain of ANY depth d >= 1 succeeds with fuel d + 4, measures the leaf once and makes
+   nqr + d + (nq - 1) * (d - 1) compute_cached_layout calls *)
+Theorem C16_real_block_chain_step :
+  forall (T : Type) (NT : Num T) (xeq : T -> T -> bool), (forall a b, xeq a b = true -> a = b) ->
+  forall (teq : T -> T -> bool) mix k nq nqr, family_ok xeq mix k nq nqr = true ->
+  forall d, (1 <= d)%nat ->
+    exists lays ns, blr_layout_passes teq block_pre abs_child_block (d + 4) (chain mix d) [chain_avail k] = Some [(lays, ns)] /\
+      n_meas (last ns stats0) = 1%N /\
+      fold_right N.add 0%N (map n_query ns) = (N.of_nat nqr + N.of_nat d + N.of_nat (nq - 1) * N.of_nat (d - 1))%N.
+Proof. intros T NT xeq Hseq teq mix k nq nqr Hok d Hd. apply (BlockChainInduct.chain_all_depths xeq Hseq teq mix k nq nqr Hok d Hd). Qed.
+
+(* non-vacuity: the table covers all-defaults chains under every available space (rates 2, 1, 2), the premise of the generic step holds
+   over binary32 (representation equality), and at depth 100 -- beyond the computed statement -- the plain chain under max-content
+   makes 201 calls and measures the leaf once *)
+Example C16_real_block_chain_all_depths_example :
+  map (chain_rate CPlain) [0; 1; 2; 7]%nat = [Some 2; Some 1; Some 2; Some 2]%nat /\
+  map (chain_rate CFixed) [0; 1; 2]%nat = [Some 1; Some 1; Some 1]%nat /\ chain_rate CCapped 2 = Some 2%nat /\
+  (forall a b, TaffyKey.f32_seqb a b = true -> a = b) /\ family_ok TaffyKey.f32_seqb CPlain 0 2 2 = true /\
+  @chain_leaf_meas f32 _ CPlain 100 0 = Some 1%N /\ @chain_queries f32 _ CPlain 100 0 = Some 201%N.
+Proof.
+  split; [reflexivity|]. split; [reflexivity|]. split; [reflexivity|]. split; [exact Proofs.TaffyKey.f32_seqb_eq|].
+  split; [apply (BlockChainInductF32.family_ok_f32 CPlain 0 2); reflexivity|].
+  destruct (BlockChainInductF32.chain_counts_all_depths CPlain 0 2 100) as [A B]; [reflexivity|repeat constructor|].
+  split; [exact A|exact B].
+Qed.
+
 (* computed instance: the counters of one pass over the depth-3 plain chain under max-content, root first, leaf last:
    (queries, hits, lossy hits, evaluations, measure calls).  Every node below the root is asked twice (content-width pass, then
    final layout); the second call is answered by the final-layout entry through the clause "known dimension = cached size" -- a
@@ -202,6 +260,10 @@ Print Assumptions C16_real_pass_miss_count.
 Print Assumptions C16_real_counters_are_ghost.
 Print Assumptions C16_real_block_pass_counts.
 Print Assumptions C16_real_chain_bound_partial.
+Print Assumptions C16_real_block_chain_bound_all_depths.
+Print Assumptions C16_real_block_chain_bound_all_depths_le.
+Print Assumptions C16_real_block_chain_step.
+Print Assumptions C16_real_block_chain_all_depths_example.
 Print Assumptions C16_real_taffy_pass_counts.
 Print Assumptions C16_real_chain_growth_refuted.
 Print Assumptions C16_real_flex_chain_bound_partial.
